@@ -3,9 +3,14 @@
 proof:   coq/C09/Props.v: token-level idempotence as a corollary of the C08 round trip (Fmt/Roundtrip.v), the writer /
          format_program model (every non-empty output ends in exactly one newline), the format_files model
          (check/diff read-only, fmt writes exactly the changed files, check-after-fmt exits 0).
+         coq/C09/PropsLayout.v: CHARACTER-level model of FormatWriter + the statement/declaration level of formatter.rs
+         (coq/Fmt/Writer.v) over a skeleton AST with opaque clean atoms: no trailing whitespace, no tab, exactly one final
+         newline, indentation = nesting level * indent_width, for ALL programs of the skeleton.
 tie:     the Coq format_program model evaluated on the real per-declaration texts must give the real whole-file text;
          the Coq format_files model evaluated on the measured per-file statuses must give the real exit code and the
-         set of files the real `format_files` (the function `incan fmt` dispatches to) modified.
+         set of files the real `format_files` (the function `incan fmt` dispatches to) modified;
+         layout tie: real parser -> real AST -> skeleton (atoms printed by the REAL formatter) -> Coq `format w p`
+         (vm_compute) == the real Formatter's output, code point for code point, widths 4/2/1/8/0, nesting 0..17.
 oracle:  on the implementation: fmt(fmt(x)) == fmt(x), hygiene of every output (final newlines, tabs, trailing blanks
          outside string tokens, located with the real lexer), check_formatted/format_diff consistency, and the CLI
          modes on scratch copies with content hashes and exit codes."""
@@ -13,6 +18,7 @@ import hashlib
 import json
 import os
 import shutil
+import time
 
 import vlib
 from checks import c08
@@ -194,6 +200,706 @@ def indent_tie(chk, binary, corr_bad):
     return len(terms)
 
 
+# ------------------------------------------------------------------------------------------ layout tie (Fmt/Writer.v)
+LAYOUT_REQ = ("From Coq Require Import ZArith List String.\nImport ListNotations.\n"
+              "From Verif Require Import Fmt.Writer C09.Layout.\nOpen Scope string_scope.\nOpen Scope Z_scope.")
+
+
+class Arms:
+    """per-arm hit counts of the model (the skeleton term handed to Coq decides which arm of fmt_* runs)"""
+
+    def __init__(self):
+        self.h = {}
+
+    def hit(self, name):
+        self.h[name] = self.h.get(name, 0) + 1
+
+
+def ztext(s):
+    if s == "":
+        return "[]"
+    if all(32 <= ord(c) < 127 for c in s):
+        return '(T "%s")' % s.replace('"', '""')
+    return vlib.zlist([ord(c) for c in s])
+
+
+def zlist_of(items):
+    return "[" + "; ".join(items) + "]"
+
+
+def zopt(f, o):
+    return "None" if o is None else "(Some %s)" % f(o)
+
+
+def zbool(b):
+    return "true" if b else "false"
+
+
+class Sk:
+    """JSON skeleton (harness c09 layout) -> Gallina term of Fmt/Writer.v, counting model arms"""
+
+    def __init__(self, arms):
+        self.a = arms
+
+    def expr(self, parts):
+        r = "XNil"
+        if not parts:
+            self.a.hit("fmt_expr/XNil (empty expression)")
+        for i in range(len(parts) - 1, -1, -1):
+            p = parts[i]
+            if p[0] == "t":
+                self.a.hit("fmt_expr/XText")
+                if i > 0 and parts[i - 1][0] != "t":
+                    self.a.hit("fmt_expr/XText after a block expression (continuation)")
+                r = "(XText %s %s)" % (ztext(p[1]), r)
+            elif p[0] == "m":
+                self.a.hit("fmt_expr/XMatch")
+                if not p[2]:
+                    self.a.hit("fmt_arms/ANil (match without arms)")
+                r = "(XMatch %s %s %s)" % (self.expr(p[1]), self.arms(p[2]), r)
+            else:
+                if p[3] is None:
+                    self.a.hit("fmt_expr/XIf")
+                    r = "(XIf %s %s %s)" % (self.expr(p[1]), self.block(p[2], "if-expr then"), r)
+                else:
+                    self.a.hit("fmt_expr/XIfElse")
+                    r = "(XIfElse %s %s %s %s)" % (self.expr(p[1]), self.block(p[2], "if-expr then"), self.block(p[3], "if-expr else"), r)
+        return r
+
+    def arms(self, arms):
+        r = "ANil"
+        for a in reversed(arms):
+            r = "(ACons %s %s)" % (self.arm(a), r)
+        return r
+
+    def arm(self, a):
+        k = a[0]
+        if k == "ge":
+            self.a.hit("fmt_arm/AGuardExpr")
+            return "(AGuardExpr %s %s %s)" % (ztext(a[1]), self.expr(a[2]), self.expr(a[3]))
+        if k == "gb":
+            self.a.hit("fmt_arm/AGuardBlock")
+            return "(AGuardBlock %s %s %s)" % (ztext(a[1]), self.expr(a[2]), self.block(a[3], "guarded arm"))
+        if k == "e":
+            self.a.hit("fmt_arm/AExpr")
+            return "(AExpr %s %s)" % (ztext(a[1]), self.expr(a[2]))
+        self.a.hit("fmt_arm/ABlock")
+        if not a[2]:
+            self.a.hit("fmt_arm/ABlock with empty body")
+        return "(ABlock %s %s)" % (ztext(a[1]), self.block(a[2], None))
+
+    def block(self, b, pass_site):
+        if pass_site is not None:
+            self.a.hit("pass_if_empty/%s" % ("writes pass" if not b else "non-empty body"))
+        r = "BNil"
+        for s in reversed(b):
+            r = "(BCons %s %s)" % (self.stmt(s), r)
+        return r
+
+    def binding(self, b):
+        self.a.hit("fmt_binding/" + b)
+        return {"inferred": "BInferred", "let": "BLet", "mut": "BMutable", "reassign": "BReassign"}[b]
+
+    def texts(self, xs):
+        return zlist_of([ztext(x) for x in xs])
+
+    def stmt(self, s):
+        k = s[0]
+        if k == "expr":
+            self.a.hit("fmt_stmt/SExpr")
+            return "(SExpr %s)" % self.expr(s[1])
+        if k == "assign":
+            self.a.hit("fmt_stmt/SAssign")
+            self.a.hit("fmt_stmt/SAssign ty:%s" % ("Some" if s[3] is not None else "None"))
+            return "(SAssign %s %s %s %s)" % (self.binding(s[1]), ztext(s[2]), zopt(ztext, s[3]), self.expr(s[4]))
+        if k == "fassign":
+            self.a.hit("fmt_stmt/SFieldAssign")
+            return "(SFieldAssign %s %s %s)" % (self.expr(s[1]), ztext(s[2]), self.expr(s[3]))
+        if k == "iassign":
+            self.a.hit("fmt_stmt/SIndexAssign")
+            return "(SIndexAssign %s %s %s)" % (self.expr(s[1]), self.expr(s[2]), self.expr(s[3]))
+        if k == "compound":
+            self.a.hit("fmt_stmt/SCompound")
+            self.a.hit("cop_text/" + s[2])
+            return "(SCompound %s C%s %s)" % (ztext(s[1]), s[2], self.expr(s[3]))
+        if k == "ret0":
+            self.a.hit("fmt_stmt/SReturn0")
+            return "SReturn0"
+        if k == "ret":
+            self.a.hit("fmt_stmt/SReturn")
+            return "(SReturn %s)" % self.expr(s[1])
+        if k == "if":
+            self.a.hit("fmt_stmt/SIf")
+            el = "LNil"
+            for c, b in reversed(s[3]):
+                self.a.hit("fmt_elifs/LCons")
+                el = "(LCons %s %s %s)" % (self.expr(c), self.block(b, "elif"), el)
+            self.a.hit("fmt_oblock/" + ("ONone" if s[4] is None else "OSome"))
+            e = "ONone" if s[4] is None else "(OSome %s)" % self.block(s[4], "else")
+            return "(SIf %s %s %s %s)" % (self.expr(s[1]), self.block(s[2], "if"), el, e)
+        if k == "while":
+            self.a.hit("fmt_stmt/SWhile")
+            return "(SWhile %s %s)" % (self.expr(s[1]), self.block(s[2], "while"))
+        if k == "for":
+            self.a.hit("fmt_stmt/SFor")
+            return "(SFor %s %s %s)" % (ztext(s[1]), self.expr(s[2]), self.block(s[3], "for"))
+        if k in ("pass", "break", "continue"):
+            self.a.hit("fmt_stmt/S" + k.capitalize())
+            return "S" + k.capitalize()
+        if k == "unpack":
+            self.a.hit("fmt_stmt/STupleUnpack")
+            return "(STupleUnpack %s %s %s)" % (self.binding(s[1]), self.texts(s[2]), self.expr(s[3]))
+        if k == "tassign":
+            self.a.hit("fmt_stmt/STupleAssign")
+            es = "ENil"
+            for e in reversed(s[1]):
+                es = "(ECons %s %s)" % (self.expr(e), es)
+            return "(STupleAssign %s %s)" % (es, self.expr(s[2]))
+        if k == "chained":
+            self.a.hit("fmt_stmt/SChained")
+            return "(SChained %s %s %s)" % (self.binding(s[1]), self.texts(s[2]), self.expr(s[3]))
+        raise vlib.Infra("layout: unknown statement kind %r" % (k,))
+
+    def decorators(self, ds):
+        out = []
+        for name, args in ds:
+            self.a.hit("fmt_decorator/args:%s" % ("[]" if not args else "[..]"))
+            av = []
+            for a in args:
+                if a[0] == "pos":
+                    self.a.hit("fmt_darg/DPos")
+                    av.append("(DPos %s)" % self.expr(a[1]))
+                elif a[0] == "nty":
+                    self.a.hit("fmt_darg/DNamedTy")
+                    av.append("(DNamedTy %s %s)" % (ztext(a[1]), ztext(a[2])))
+                else:
+                    self.a.hit("fmt_darg/DNamedExpr")
+                    av.append("(DNamedExpr %s %s)" % (ztext(a[1]), self.expr(a[2])))
+            out.append("{| dec_name := %s; dec_args := %s |}" % (ztext(name), zlist_of(av)))
+        return zlist_of(out)
+
+    def params(self, ps):
+        out = []
+        for m, name, ty, d in ps:
+            self.a.hit("fmt_param/mut:%s default:%s" % (zbool(m), "Some" if d is not None else "None"))
+            out.append("{| p_mut := %s; p_name := %s; p_ty := %s; p_default := %s |}" % (zbool(m), ztext(name), ztext(ty), zopt(self.expr, d)))
+        return zlist_of(out)
+
+    def fields(self, fs):
+        out = []
+        for pub, name, ty, d in fs:
+            self.a.hit("fmt_field/pub:%s default:%s" % (zbool(pub), "Some" if d is not None else "None"))
+            out.append("{| f_pub := %s; f_name := %s; f_ty := %s; f_default := %s |}" % (zbool(pub), ztext(name), ztext(ty), zopt(self.expr, d)))
+        return zlist_of(out)
+
+    def body(self, b, site):
+        self.a.hit("fmt_body/%s: %s" % (site, "writes pass" if not b else "statements"))
+        return self.block(b, None)
+
+    def methods(self, ms, site, blank_first):
+        out = []
+        for i, (decs, is_async, name, recv, params, ret, body) in enumerate(ms):
+            self.a.hit("fmt_methods/%s blank line before: %s" % (site, zbool(blank_first or i > 0)))
+            self.a.hit("fmt_method/recv:%s" % recv)
+            self.a.hit("fmt_method/async:%s" % zbool(is_async))
+            self.a.hit("fmt_method/comma after receiver:%s" % zbool(recv != "none" and bool(params)))
+            self.a.hit("fmt_method/body:%s" % ("None (: ...)" if body is None else "Some"))
+            b = "None" if body is None else "(Some %s)" % self.body(body, "method")
+            out.append("{| m_decs := %s; m_async := %s; m_name := %s; m_recv := %s; m_params := %s; m_ret := %s; m_body := %s |}" % (
+                self.decorators(decs), zbool(is_async), ztext(name), {"none": "RNone", "imm": "RImm", "mut": "RMut"}[recv],
+                self.params(params), ztext(ret), b))
+        return zlist_of(out)
+
+    def ipath(self, p):
+        ab, lv, segs = p
+        self.a.hit("fmt_ipath/%s segments:%s" % ("crate" if ab else ("super x%d" % min(lv, 2) if lv else "plain"), "[]" if not segs else "[..]"))
+        return "{| ip_abs := %s; ip_parents := %d; ip_segs := %s |}" % (zbool(ab), lv, self.texts(segs))
+
+    def items(self, items):
+        if not items:
+            self.a.hit("fmt_import/items:[] (not producible by the parser)")
+        out = []
+        for n, al in items:
+            self.a.hit("fmt_iitem/alias:%s" % ("Some" if al is not None else "None"))
+            out.append("{| ii_name := %s; ii_alias := %s |}" % (ztext(n), zopt(ztext, al)))
+        return zlist_of(out)
+
+    def tps(self, tps, site):
+        self.a.hit("fmt_type_params/%s" % ("[]" if not tps else "[..]"))
+        return self.texts(tps)
+
+    def decl(self, d):
+        k = d[0]
+        if k == "import":
+            kind = d[1]
+            self.a.hit("fmt_import/" + kind[0])
+            self.a.hit("fmt_alias/%s" % ("Some" if d[2] is not None else "None"))
+            if kind[0] == "module":
+                kk = "(IModule %s)" % self.ipath(kind[1])
+            elif kind[0] == "from":
+                kk = "(IFrom %s %s)" % (self.ipath(kind[1]), self.items(kind[2]))
+            elif kind[0] == "python":
+                kk = "(IPython %s)" % ztext(kind[1])
+            elif kind[0] == "rustcrate":
+                self.a.hit("fmt_import/rustcrate path:%s" % ("[]" if not kind[2] else "[..]"))
+                kk = "(IRustCrate %s %s)" % (ztext(kind[1]), self.texts(kind[2]))
+            else:
+                kk = "(IRustFrom %s %s %s)" % (ztext(kind[1]), self.texts(kind[2]), self.items(kind[3]))
+            return "(DImport %s %s)" % (kk, zopt(ztext, d[2]))
+        if k == "const":
+            self.a.hit("fmt_decl/DConst")
+            self.a.hit("fmt_decl/DConst ty:%s" % ("Some" if d[3] is not None else "None"))
+            self.a.hit("fmt_vis/%s" % zbool(d[1]))
+            return "(DConst %s %s %s %s)" % (zbool(d[1]), ztext(d[2]), zopt(ztext, d[3]), self.expr(d[4]))
+        if k in ("model", "class"):
+            if k == "model":
+                _, pub, decs, name, tps, traits, fields, methods = d
+                ext = None
+            else:
+                _, pub, decs, name, tps, ext, traits, fields, methods = d
+                self.a.hit("fmt_decl/DClass extends:%s" % ("Some" if ext is not None else "None"))
+            self.a.hit("fmt_decl/D" + k.capitalize())
+            self.a.hit("fmt_vis/%s" % zbool(pub))
+            self.a.hit("fmt_traits/%s" % ("[]" if not traits else "[..]"))
+            self.a.hit("fmt_decl/D%s %s" % (k.capitalize(), "writes pass (no fields, no methods: not producible by the parser)" if not fields and not methods else
+                                            "fields:%s methods:%s" % ("[]" if not fields else "[..]", "[]" if not methods else "[..]")))
+            head = "%s %s %s %s" % (zbool(pub), self.decorators(decs), ztext(name), self.tps(tps, k))
+            if k == "class":
+                head += " " + zopt(ztext, ext)
+            return "(D%s %s %s %s %s)" % (k.capitalize(), head, self.texts(traits), self.fields(fields), self.methods(methods, k, bool(fields)))
+        if k == "trait":
+            _, pub, decs, name, tps, methods = d
+            self.a.hit("fmt_decl/DTrait")
+            self.a.hit("fmt_decl/DTrait %s" % ("writes pass" if not methods else "methods"))
+            self.a.hit("fmt_vis/%s" % zbool(pub))
+            return "(DTrait %s %s %s %s %s)" % (zbool(pub), self.decorators(decs), ztext(name), self.tps(tps, k), self.methods(methods, k, False))
+        if k == "newtype":
+            _, pub, name, under, methods = d
+            self.a.hit("fmt_decl/DNewtype")
+            self.a.hit("fmt_decl/DNewtype methods:%s" % ("[]" if not methods else "[..]"))
+            self.a.hit("fmt_vis/%s" % zbool(pub))
+            return "(DNewtype %s %s %s %s)" % (zbool(pub), ztext(name), ztext(under), self.methods(methods, k, True))
+        if k == "enum":
+            _, pub, name, tps, variants = d
+            self.a.hit("fmt_decl/DEnum")
+            self.a.hit("fmt_decl/DEnum %s" % ("writes pass (not producible by the parser)" if not variants else "variants"))
+            self.a.hit("fmt_vis/%s" % zbool(pub))
+            vs = []
+            for vn, vf in variants:
+                self.a.hit("fmt_variant/fields:%s" % ("[]" if not vf else "[..]"))
+                vs.append("{| v_name := %s; v_fields := %s |}" % (ztext(vn), self.texts(vf)))
+            return "(DEnum %s %s %s %s)" % (zbool(pub), ztext(name), self.tps(tps, k), zlist_of(vs))
+        if k == "function":
+            _, pub, decs, is_async, name, tps, params, ret, body = d
+            self.a.hit("fmt_decl/DFunction")
+            self.a.hit("fmt_decl/DFunction async:%s" % zbool(is_async))
+            self.a.hit("fmt_vis/%s" % zbool(pub))
+            return "(DFunction %s %s %s %s %s %s %s %s)" % (zbool(pub), self.decorators(decs), zbool(is_async), ztext(name), self.tps(tps, k),
+                                                         self.params(params), ztext(ret), self.body(body, "function"))
+        if k == "docstring":
+            t = d[1]
+            self.a.hit("fmt_docstring/" + ("empty" if t == "" else "multi-line" if "\n" in t else "single line ending in a quote" if t.endswith('"') else "single line"))
+            return "(DDocstring %s)" % ztext(t)
+        raise vlib.Infra("layout: unknown declaration kind %r" % (k,))
+
+    def program(self, decls):
+        prev = None
+        for d in decls:
+            self.a.hit("fmt_decls/" + ("first declaration" if prev is None else "newline() after a docstring" if prev == "docstring" else "blank_lines(2)"))
+            prev = d[0]
+        if not decls:
+            self.a.hit("fmt_decls/empty program")
+        return zlist_of([self.decl(d) for d in decls])
+
+
+# every arm / sub-branch of the model; the stream must reach each of them (else the generator has a gap: Infra)
+EXPECTED_ARMS = """fmt_expr/XText|fmt_expr/XText after a block expression (continuation)|fmt_expr/XMatch|fmt_expr/XIf|fmt_expr/XIfElse|fmt_arms/ANil (match without arms)
+fmt_arm/AGuardExpr|fmt_arm/AGuardBlock|fmt_arm/AExpr|fmt_arm/ABlock|fmt_arm/ABlock with empty body
+pass_if_empty/writes pass|pass_if_empty/non-empty body|fmt_binding/inferred|fmt_binding/let|fmt_binding/mut|fmt_binding/reassign
+fmt_stmt/SExpr|fmt_stmt/SAssign|fmt_stmt/SAssign ty:Some|fmt_stmt/SAssign ty:None|fmt_stmt/SFieldAssign|fmt_stmt/SIndexAssign|fmt_stmt/SCompound
+cop_text/Add|cop_text/Sub|cop_text/Mul|cop_text/Div|cop_text/FloorDiv|cop_text/Mod
+fmt_stmt/SReturn0|fmt_stmt/SReturn|fmt_stmt/SIf|fmt_elifs/LCons|fmt_oblock/ONone|fmt_oblock/OSome|fmt_stmt/SWhile|fmt_stmt/SFor
+fmt_stmt/SPass|fmt_stmt/SBreak|fmt_stmt/SContinue|fmt_stmt/STupleUnpack|fmt_stmt/STupleAssign|fmt_stmt/SChained
+fmt_decorator/args:[]|fmt_decorator/args:[..]|fmt_darg/DPos|fmt_darg/DNamedTy|fmt_darg/DNamedExpr
+fmt_param/mut:false default:None|fmt_param/mut:true default:None|fmt_param/mut:false default:Some
+fmt_field/pub:false default:None|fmt_field/pub:true default:None|fmt_field/pub:false default:Some
+fmt_body/function: writes pass|fmt_body/function: statements|fmt_body/method: writes pass|fmt_body/method: statements
+fmt_methods/model blank line before: true|fmt_methods/class blank line before: false|fmt_methods/class blank line before: true
+fmt_methods/trait blank line before: false|fmt_methods/trait blank line before: true|fmt_methods/newtype blank line before: true
+fmt_method/recv:none|fmt_method/recv:imm|fmt_method/recv:mut|fmt_method/async:true|fmt_method/async:false
+fmt_method/comma after receiver:true|fmt_method/comma after receiver:false|fmt_method/body:None (: ...)|fmt_method/body:Some
+fmt_ipath/crate segments:[..]|fmt_ipath/crate segments:[]|fmt_ipath/plain segments:[..]|fmt_ipath/plain segments:[]|fmt_ipath/super x1 segments:[..]|fmt_ipath/super x2 segments:[..]
+fmt_import/items:[] (not producible by the parser)|fmt_iitem/alias:Some|fmt_iitem/alias:None|fmt_type_params/[]|fmt_type_params/[..]
+fmt_import/module|fmt_import/from|fmt_import/python|fmt_import/rustcrate|fmt_import/rustfrom|fmt_import/rustcrate path:[]|fmt_import/rustcrate path:[..]
+fmt_alias/Some|fmt_alias/None|fmt_decl/DConst|fmt_decl/DConst ty:Some|fmt_decl/DConst ty:None|fmt_vis/true|fmt_vis/false
+fmt_decl/DModel|fmt_decl/DClass|fmt_decl/DClass extends:Some|fmt_decl/DClass extends:None|fmt_traits/[]|fmt_traits/[..]
+fmt_decl/DClass writes pass (no fields, no methods: not producible by the parser)|fmt_decl/DModel writes pass (no fields, no methods: not producible by the parser)
+fmt_decl/DClass fields:[..] methods:[..]|fmt_decl/DClass fields:[] methods:[..]|fmt_decl/DModel fields:[..] methods:[]
+fmt_decl/DTrait|fmt_decl/DTrait writes pass|fmt_decl/DTrait methods|fmt_decl/DNewtype|fmt_decl/DNewtype methods:[]|fmt_decl/DNewtype methods:[..]
+fmt_decl/DEnum|fmt_decl/DEnum writes pass (not producible by the parser)|fmt_decl/DEnum variants|fmt_variant/fields:[]|fmt_variant/fields:[..]
+fmt_decl/DFunction|fmt_decl/DFunction async:true|fmt_decl/DFunction async:false
+fmt_docstring/empty|fmt_docstring/multi-line|fmt_docstring/single line|fmt_docstring/single line ending in a quote
+fmt_decls/first declaration|fmt_decls/newline() after a docstring|fmt_decls/blank_lines(2)|fmt_decls/empty program
+format/trim removes blank lines (the last declaration ends in a block expression)|format/nothing to trim""".replace("\n", "|").split("|")
+
+LAYOUT_HAND = [
+    # (name, source): between them these reach every arm that source text can reach
+    ("stmts", """def f(a: int, mut b: int = 1, c: str = "x") -> int:
+    x = 1
+    let y: int = 2
+    mut z = x + y
+    self.x = 1
+    xs[0] = 2
+    z += 1
+    z -= 1
+    z *= 2
+    z /= 2
+    z //= 2
+    z %= 2
+    if x > 0:
+        return
+    elif x < 0:
+        return x
+    elif x == 5:
+        pass
+    else:
+        break
+    while x:
+        continue
+    for i in 0..3:
+        f(i)
+    a, b = t
+    let p, q = t
+    xs[0], ys.z = t
+    m = n = 3
+    mut u = v = 4
+    yield
+    "string statement"
+    return x
+"""),
+    ("match", """def g(n: int) -> int:
+    match n:
+        0 => 1
+        case 1: return 2
+        case k if k > 0: return k
+        case j if j < 0:
+            x = j
+            return x
+        (a, b) =>
+            return a
+        _ => 0
+    x = match n:
+        Some(v) => v
+        _ => 0
+    return match n:
+        1 => 2
+        _ => match n:
+            3 => 4
+            _ => 5
+"""),
+    ("guardexpr", "def g(n: int) -> int:\n    match n:\n        case k if k > 0: k\n        _ => 0\n"),
+    ("ifexpr", """def h(a: int) -> int:
+    x = if a:
+        1
+    else:
+        2
+    y = if a:
+        f()
+    return x
+"""),
+    ("operand", "def f() -> None:\n    match a:\n        b => 1\n    -1\n    x = 1 + match c:\n        d => 2\n    match e:\n        g => 3\n    .foo()\n"),
+    ("decls", '''"""Module doc."""
+import a::b as c
+import crate::cfg
+import super::x
+import super::super::y::z
+from ..x import y as z, w
+from crate::m import k
+import python "os.path" as p
+import python "os"
+import rust::serde_json
+import rust::serde_json::Value as V
+from rust::std::time import Instant, Duration as D
+pub const MAX: int = 10
+const NAME = "n"
+
+@derive(Debug, Clone)
+@route("/x", body: List[int], k=1)
+@fixture
+pub async def run[T, E](a: T) -> Result[T, E]:
+    ...
+
+def empty() -> None:
+    pass
+
+model User[T] with Debug, Clone:
+    pub id: int
+    name: str = "x"
+
+    def get(self) -> int:
+        return self.id
+
+    async def put(mut self, v: int, w: int) -> None:
+        self.id = v
+
+model Plain:
+    x: int
+
+class Base:
+    def only(self) -> int:
+        return 1
+
+    def stat() -> int:
+        ...
+
+pub class C[K, V] extends Base with T1:
+    x: int
+
+    @validate
+    def m(self) -> int:
+        return 1
+
+trait Show:
+    def show(self) -> str: ...
+
+    def dflt(self) -> str:
+        return "x"
+
+trait Empty:
+    pass
+
+type UserId = newtype int
+pub type Email = newtype str:
+    def get(self) -> str:
+        return self.0
+
+    def other(self) -> int:
+        return 1
+
+enum Color:
+    Red
+    Rgb(int, int, int)
+
+pub enum Opt[T]:
+    Nothing
+    Just(T)
+'''),
+    ("docs", '""""""\nconst A: int = 1\n'),
+    ("docm", '"""\nMulti-line\n\n  indented text\nlast\n"""\nconst A: int = 1\n'),
+    ("docq", '"ends with quote\\""\ndef f() -> None:\n    pass\n'),
+    ("trail", "def f(x: int) -> None:\n    match x:\n        case 0:\n            match x:\n                case 1:\n                    pass\nconst AFTER: int = 1\n"),
+    ("trail2", "def f(x: int) -> None:\n    match x:\n        case 0:\n            match x:\n                case 1:\n                    pass\n"),
+    ("empty", ""),
+    ("comment-only", "# nothing\n"),
+]
+LAYOUT_TWEAKS = [
+    # (tweak list, source name): AST shapes the parser never produces — the model's remaining arms, and the replays of
+    # the AST-only refutation witnesses (a line that ends in a space: `import ` with an empty path, `from x import `)
+    (["empty_class"], "decls"), (["empty_enum"], "decls"), (["reassign"], "stmts"), (["empty_import_items"], "decls"),
+    (["empty_import_path"], "decls"), (["crate_only_path"], "decls"), (["empty_arms"], "match"), (["empty_arm_block"], "match"),
+    (["empty_bodies"], "stmts"), (["empty_fn_bodies"], "decls"), (["empty_names"], "stmts"), (["empty_if_expr_bodies"], "ifexpr"),
+    (["guard_expr_body"], "guardexpr"),
+]
+
+
+def layout_sources(chk):
+    """-> list of (origin, source, indent_width, tweaks)"""
+    out = []
+    hand = dict(LAYOUT_HAND)
+    for name, src in LAYOUT_HAND:
+        for w in (4, 2):
+            out.append(("hand:%s:w%d" % (name, w), src, w, []))
+    for w in (0, 1, 8):
+        out.append(("hand:stmts:w%d" % w, hand["stmts"], w, []))
+        out.append(("hand:match:w%d" % w, hand["match"], w, []))
+    for tw, name in LAYOUT_TWEAKS:
+        for w in (4, 2):
+            out.append(("tweak:%s:%s:w%d" % ("+".join(tw), name, w), hand[name], w, tw))
+    # nesting depths 0, 1, 2, 16, 17 (more in the thorough tier) x block kinds x widths
+    mixes = [["if"], ["for", "if", "while"], ["match"], ["if", "match", "else", "for", "elif", "while"]]
+    depths = [0, 1, 2, 16, 17] + ([8, 9, 32, 33] if chk.tier != "quick" else [])
+    for d in depths:
+        for mi, mix in enumerate(mixes):
+            for w in (4, 2):
+                out.append(("nest:%d:%d:w%d" % (d, mi, w), c08.nest_blocks(d, mix), w, []))
+        for w in (1, 8):
+            out.append(("nest:%d:1:w%d" % (d, w), c08.nest_blocks(d, mixes[1]), w, []))
+    # generated programs (the C08/C09 generator) and declaration-heavy ones
+    n_gen = 80 if chk.tier == "quick" else 1500
+    for i in range(n_gen):
+        src, _ = c08.program(chk.rng, chk.rng.randrange(1, 5))
+        out.append(("gen:%d" % i, src, (4, 2)[i % 2], []))
+    kinds = ["model", "class", "trait", "newtype", "enum", "function", "function", "import", "const", "docstring"]
+    for i in range(60 if chk.tier == "quick" else 1200):
+        g = c08.Gen(chk.rng)
+        ds = ["\n".join(g.decl(chk.rng.choice(kinds), ("fmt-newtype-methods",))) for _ in range(chk.rng.randrange(1, 4))]
+        out.append(("gendecl:%d" % i, "\n".join(ds) + "\n", (4, 2)[i % 2], []))
+    # statement-heavy bodies with block-bodied expressions in value position
+    for i in range(40 if chk.tier == "quick" else 600):
+        g = c08.Gen(chk.rng)
+        body = g.block(3, 4, tuple(c08.FIXED), n=chk.rng.randrange(2, 6))
+        out.append(("genstmt:%d" % i, "def f(x: int) -> int:\n" + "\n".join(body) + "\n", (4, 2)[i % 2], []))
+    # corpus files (small ones)
+    files = [p for p in c08.corpus_files() if os.path.getsize(p) < 3000]
+    for p in files[:(20 if chk.tier == "quick" else 200)]:
+        try:
+            out.append(("file:" + os.path.basename(p), open(p).read(), 4, []))
+        except (OSError, UnicodeDecodeError):
+            pass
+    return out
+
+
+def layout_oracle(r, width, prog):
+    """hygiene of the REAL output, judged without the model -> list of reasons"""
+    why = []
+    h = r["hyg"]
+    text = r["text"]
+    if prog and h["final_newlines"] != 1:
+        why.append("output ends in %d newlines (exactly one required)" % h["final_newlines"])
+    if not prog and text != "":
+        why.append("the empty program is printed as %r" % text[:40])
+    if h["lexed"]:
+        if h["tabs"]:
+            why.append("tab outside string contents: %r" % h["bad_line"])
+        if h["trailing"]:
+            why.append("%d line(s) with trailing whitespace outside strings: %r" % (h["trailing"], h["bad_line"]))
+    else:
+        # the text does not lex (block continuation class): no string mask available
+        for line in text.split("\n"):
+            if line.endswith((" ", "\t", "\r")) and '"' not in line and "'" not in line:
+                why.append("line with trailing whitespace: %r" % line)
+                break
+            if "\t" in line and '"' not in line and "'" not in line:
+                why.append("tab: %r" % line)
+                break
+    return why
+
+
+def _raw_trailing(prog):
+    """does the last declaration end in a block-bodied expression (the raw output then ends in blank lines)?"""
+    def tail_e(parts):
+        return bool(parts) and parts[-1][0] in ("m", "i")
+
+    def tail_b(b):
+        if not b:
+            return False
+        s = b[-1]
+        k = s[0]
+        if k in ("expr", "ret"):
+            return tail_e(s[1])
+        if k == "assign":
+            return tail_e(s[4])
+        if k in ("compound", "unpack", "chained", "fassign", "iassign"):
+            return tail_e(s[3])
+        if k == "tassign":
+            return tail_e(s[2])
+        if k == "if":
+            return tail_b(s[4]) if s[4] is not None else (tail_b(s[3][-1][1]) if s[3] else tail_b(s[2]))
+        if k == "while":
+            return tail_b(s[2])
+        if k == "for":
+            return tail_b(s[3])
+        return False
+    if not prog:
+        return False
+    d = prog[-1]
+    if d[0] == "function":
+        return tail_b(d[8])
+    if d[0] == "const":
+        return tail_e(d[4])
+    if d[0] in ("model", "class", "trait", "newtype"):
+        ms = d[-1]
+        return bool(ms) and ms[-1][6] is not None and tail_b(ms[-1][6])
+    return False
+
+
+def layout_tie(chk, binary, fails, corr_bad):
+    """real parser -> real AST -> skeleton (atoms printed by the real formatter) -> Coq `format` == real Formatter"""
+    t_start = time.time()
+    srcs = layout_sources(chk)
+    inp = "".join(json.dumps({"src": s, "indent_width": w, "tweaks": tw}) + "\n" for _, s, w, tw in srcs)
+    out = vlib.run_harness(binary, ["run", "c09", "layout"], inp, timeout=1800)
+    res = [json.loads(l) for l in out.split("\n") if l]
+    if len(res) != len(srcs):
+        raise vlib.Infra("c09 layout harness returned %d lines for %d sources" % (len(res), len(srcs)))
+    arms = Arms()
+    cases, skipped = [], {}
+    limit = 6000 if chk.tier == "quick" else 20000
+    for (origin, src, w, tw), r in zip(srcs, res):
+        if "panic" in r:
+            fails.append({"origin": origin, "source": src, "why": "the formatter panicked: " + r["panic"], "indent_width": w})
+            continue
+        if r.get("parse") != "ok":
+            if origin.startswith(("hand:", "tweak:", "nest:")):
+                raise vlib.Infra("layout: fixed source %s does not parse: %s" % (origin, r.get("parse")))
+            skipped["does not parse"] = skipped.get("does not parse", 0) + 1
+            chk.count_case(("layout", origin, "noparse"), nontrivial=False)
+            continue
+        if len(r["text"]) > limit:
+            skipped["output longer than %d" % limit] = skipped.get("output longer than %d" % limit, 0) + 1
+            continue
+        sub = Arms()
+        term = Sk(sub).program(r["prog"])
+        cases.append((origin, src, w, tw, r, "(%d%%nat, %s)" % (w, term), sub))
+    # one coqc costs ~1 s to start and ~0.1 s per case; on an overloaded machine parallel shards only slow each other down
+    busy = os.getloadavg()[0] > 1.5 * (os.cpu_count() or 1)
+    nsh = 1 if busy else (6 if chk.tier == "quick" else 16)
+    got = vlib.coq_eval(LAYOUT_REQ, "nat * program", "fun c => run_layout (fst c) (snd c)", [c[5] for c in cases],
+                        shard=max(8, (len(cases) + nsh - 1) // nsh), tag="c09layout")
+    n_wf = n_nc = n_ast_only = 0
+    outside = {}
+    depth_hist = {}
+    for (origin, src, w, tw, r, _, sub), g in zip(cases, got):
+        m_text = "".join(chr(c) for c in g[0])
+        wf, nc, lvl = g[1]
+        real = r["text"]
+        for k, v in sub.h.items():
+            arms.h[k] = arms.h.get(k, 0) + v
+        arms.hit("format/" + ("trim removes blank lines (the last declaration ends in a block expression)" if _raw_trailing(r["prog"]) else "nothing to trim"))
+        chk.count_case(("layout", origin, w), nontrivial=bool(r["prog"]))
+        n_wf += wf
+        n_nc += nc
+        mx = max([(len(l) - len(l.lstrip(" "))) // w for l in real.split("\n") if l.strip()] or [0]) if w else 0
+        depth_hist[min(mx, 40)] = depth_hist.get(min(mx, 40), 0) + 1
+        why = layout_oracle(r, w, r["prog"])
+        # indentation is a multiple of the width (no continuation, no multi-line docstring): judged on the real text alone
+        if w > 1 and nc and not any(d[0] == "docstring" and "\n" in d[1] for d in r["prog"]):
+            bad = [l for l in real.split("\n") if l.strip() and (len(l) - len(l.lstrip(" "))) % w]
+            if bad:
+                why.append("indentation of %r is not a multiple of indent_width %d" % (bad[0], w))
+        if why:
+            if tw:
+                # AST shapes the parser never produces: outside the property's quantifier; recorded, and the model must agree
+                n_ast_only += 1
+                chk.coverage.setdefault("ast_only_refutations_replayed", {})["+".join(tw)] = why[0][:160]
+            else:
+                fails.append({"origin": origin, "source": src, "indent_width": w, "why": "; ".join(why), "formatted": real[:2000],
+                              "model_agrees": m_text == real, "model_hypotheses_hold": bool(wf)})
+        if not wf and not tw:
+            outside[origin.split(":")[0]] = outside.get(origin.split(":")[0], 0) + 1
+        if wf and why and m_text == real:
+            corr_bad.append({"why": "the model's hypotheses hold and its output equals the real one, but the oracle rejects the text: theorem and oracle disagree",
+                             "source": src, "reasons": why})
+        if r["problems"]:
+            corr_bad.append({"why": "an atom could not be cut out of the real formatter's wrapper output", "source": src, "indent_width": w, "problems": r["problems"][:3]})
+        if m_text != real:
+            ml, rl = m_text.split("\n"), real.split("\n")
+            first = next((i for i, (a, b) in enumerate(zip(ml, rl)) if a != b), min(len(ml), len(rl)))
+            corr_bad.append({"why": "layout model (Fmt/Writer.v format) and the real Formatter disagree", "origin": origin, "source": src, "indent_width": w, "tweaks": tw,
+                             "line": first + 1, "model_line": ml[first] if first < len(ml) else None, "impl_line": rl[first] if first < len(rl) else None})
+        if lvl != 0:
+            corr_bad.append({"why": "model ends with indent level %d" % lvl, "source": src})
+    chk.coverage["model_arm_hits"] = dict(sorted(arms.h.items()))
+    zero = [a for a in EXPECTED_ARMS if not arms.h.get(a)]
+    chk.coverage["layout_tie"] = {"cases": len(cases), "hypotheses_hold (wf_program)": n_wf, "no block continuation (nc_program)": n_nc,
+                                  "ast_only_cases_with_a_hygiene_violation": n_ast_only, "source_cases_outside_the_hypotheses": outside,
+                                  "skipped": skipped, "deepest_indent_level_histogram": dict(sorted(depth_hist.items())),
+                                  "wall_s": round(time.time() - t_start, 1)}
+    if zero:
+        raise vlib.Infra("generator gap: layout-model arms never reached by the correspondence stream: %s" % zero)
+    return len(cases)
+
+
 def witness_fails_c09(known, c08_known):
     def judge(f, r):
         for d in r["decls"]:
@@ -206,20 +912,27 @@ def witness_fails_c09(known, c08_known):
 
 def run(chk):
     chk.trusted = [
-        "Coq 8.16.1 kernel; no axioms (7 theorems closed under the global context)",
-        "hand-written models: coq/Fmt (see C08) for idempotence; coq/C09/Model.v for FormatWriter + format_program and for format_files, tied on every run",
-        "vharness c08/c09 adapters (c09 calls incan::cli::commands::format_files in-process: the function `incan fmt` dispatches to; clap's flag parsing is not exercised), "
-        "the real lexer (to decide which characters are inside string tokens), this script",
+        "Coq 8.16.1 kernel; no axioms (19 theorems closed under the global context: 9 in Props.v, 10 in PropsLayout.v)",
+        "hand-written models: coq/Fmt (see C08) for idempotence; coq/C09/Model.v for FormatWriter + format_program and for format_files; "
+        "coq/Fmt/Writer.v (character-level FormatWriter + statement/declaration level of formatter.rs over a skeleton AST), tied on every run",
+        "vharness c08/c09 adapters (c09 calls incan::cli::commands::format_files in-process: the function `incan fmt` dispatches to; clap's flag parsing is not exercised; "
+        "c09 layout converts the real AST to the skeleton field by field, cuts atom texts out of the real formatter's output of one-declaration wrapper programs, "
+        "and repeats `doc.trim()` + the two replace() calls of format_docstring), the real lexer (to decide which characters are inside string tokens), this script",
     ]
     chk.assumptions = [
         "idempotence is proved at token level for the C08 expression core only; for everything else it is checked on the implementation",
-        "no_trailing_ws is NOT a Coq theorem: it is checked on the implementation (one listed class left: `if ` of an if-expression)",
-        "ends_line (every format_declaration arm finishes with newline() then only dedent()s) is a hypothesis of C09_ends_with_one_newline, read off formatter.rs and exercised by the program tie",
+        "hygiene (no trailing whitespace, no tab, one final newline, indentation = nesting level * width) is a Coq theorem for every program of the statement/declaration "
+        "skeleton whose atoms are clean (wf_program); that the real formatter's expression / type / pattern texts ARE clean is established by the C08 expression model for its "
+        "core and checked on every layout-tie case (the model evaluates wf_program on the real atoms)",
+        "expression-level writes are opaque in the layout model: format_expr arms other than Match/If, format_type, format_pattern, format_literal, escape_string are "
+        "covered by the C08 token-level model and the implementation oracle, not by PropsLayout.v",
+        "ends_line (every format_declaration arm finishes with newline() then only dedent()s) is a hypothesis of the older C09_ends_with_one_newline; "
+        "C09_layout_ends_with_one_newline needs no such hypothesis",
     ]
     known = c08.load_findings(chk, "C09", c08.PROPOSED_C09)
     c08f = vlib.known_findings("C08")
     c08_known = {f["id"] for f in c08f if f.get("status") == "known"}
-    res = chk.proof_stage("C09", allow_axioms=())
+    res = chk.proof_stage("C09", allow_axioms=(), extra_props=[("PropsLayout", ())])
     binary = vlib.build_harness("debug")
     items, used = c08.gather(chk, binary)
     fails, corr_bad, hits, dist = [], [], set(), {}
@@ -259,6 +972,7 @@ def run(chk):
     n_cli = cli_scenarios(chk, binary, items, known, c08_known, fails, corr_bad)
     n_prog = program_tie(chk, binary, items, corr_bad)
     n_prog += indent_tie(chk, binary, corr_bad)
+    n_prog += layout_tie(chk, binary, fails, corr_bad)
     chk.coverage["rule"] = ("one evaluation per top-level declaration of every corpus file and generated program (idempotence + hygiene), one per CLI run "
                             "(6 runs x 2 directories), one per program-tie case; non-trivial = the formatted text re-parses")
     chk.coverage["distribution"] = dict(sorted(dist.items(), key=lambda kv: -kv[1])[:40])
@@ -279,4 +993,31 @@ def run(chk):
 
 
 def replay(path):
+    data = json.load(open(path))
+    lay = [v["detail"] for v in data["violations"] if "indent_width" in v["detail"] or any("indent_width" in c for c in v["detail"].get("cases", []) if isinstance(c, dict))]
+    if lay:
+        binary = vlib.build_harness("debug")
+        cases = []
+        for d in lay:
+            cases += [d] if "source" in d else [c for c in d.get("cases", []) if isinstance(c, dict) and "source" in c]
+        for c in cases:
+            req = {"src": c["source"], "indent_width": c.get("indent_width", 4), "tweaks": c.get("tweaks", [])}
+            r = json.loads(vlib.run_harness(binary, ["run", "c09", "layout"], json.dumps(req) + "\n").split("\n")[0])
+            print("---- source (indent_width=%s tweaks=%s)\n%s" % (req["indent_width"], req["tweaks"], c["source"]))
+            if r.get("parse") != "ok":
+                print("does not parse:", r.get("parse"))
+                continue
+            print("---- formatted by the real Formatter\n" + r["text"])
+            print("hygiene:", r["hyg"], "| why:", c.get("why"))
+            if "model_line" in c:
+                print("first differing line %s: model %r / implementation %r" % (c.get("line"), c.get("model_line"), c.get("impl_line")))
+            g = vlib.coq_eval(LAYOUT_REQ, "nat * program", "fun c => run_layout (fst c) (snd c)",
+                              ["(%d%%nat, %s)" % (req["indent_width"], Sk(Arms()).program(r["prog"]))], tag="c09replay")[0]
+            m = "".join(chr(x) for x in g[0])
+            print("---- Coq model `format` %s the real output (wf_program=%s, nc_program=%s)" % ("EQUALS" if m == r["text"] else "DIFFERS from", g[1][0], g[1][1]))
+            if m != r["text"]:
+                print(m)
+        rest = [v for v in data["violations"] if v["detail"] not in lay]
+        if not rest:
+            return 0
     return c08.replay(path)
